@@ -602,7 +602,16 @@ int run_harness(std::string const& harness_name, options const& opt, BodyS body_
             v.note += std::string("replay threw: ") + ex.what() + ";";
         }
         catch (abort_path const&) {}
-        v.confirmed = hd.failed.count(v.check) != 0;
+        // reproduced: the same obligation fails concretely, or the concrete run of the real code dies in a failed
+        // assertion / unexpected exception (the same defect showing up in a cruder way)
+        v.confirmed = hd.failed.count(v.check) != 0 || hd.failed.count("no_assertion_failure") != 0 ||
+            hd.failed.count("no_unexpected_exception") != 0;
+        if (!hd.failed.empty())
+        {
+            v.note += "replay failed:";
+            for (auto const& n : hd.failed) v.note += " " + n;
+            v.note += ";";
+        }
         if (v.confirmed) ++res.checks[v.check].confirmed;
     }
 
